@@ -693,4 +693,6 @@ func TestC14(t *testing.T) {
 	h.Run(c, "residue", c.N(3000, 20000), genResidue, oracleResidue)
 	c.Rule("types: 1-3 programs over the type names T (bound per run to int64/string/float64/bool or unbound), U (bound in a template environment) and W (defined by some programs with make(type ...)), each parsed once; 2-6 runs, each in an environment derived from the one template by Copy / DeepCopy / NewEnv / Copy of a child; every run must equal a fresh parse in an environment derived the same way from a fresh template; the template must not learn a type from a run; non-trivial = >= 2 runs with >= 2 different bindings of T")
 	h.Run(c, "types", c.N(3000, 20000), genTypes, oracleTypes)
+	c.Rule("interleave: two environments take turns running small programs (closures over parameters and locals of finished calls made in nested blocks, closures stored through the enclosing scope, loops that change the map they walk, modules, recursion with deferred calls; later turns use what earlier ones left); every environment must get the results it gets when its programs run alone, and the whole sequence the same results when repeated; non-trivial = both environments ran and A ran at least twice")
+	h.Run(c, "interleave", c.N(3000, 20000), genInterleave, oracleInterleave)
 }
